@@ -210,3 +210,45 @@ package middleware
 //@   nosafety all pre
 //@   assert at return: calls("(*middleware.ResponseMeta).Reset") == 1
 //@   assert at call (*middleware.responseWriter).release#1: dyntype(ch.Writer, *responseWriter) && arg0 == as(ch.Writer, *responseWriter)
+//@
+//@ # ---- C12 (continued): public entry points delegate with the latch set for required work and clear for best-effort
+//@ # work; Reject never fails in shadow mode and always reports a limit error in enforce mode; a tree is retained only
+//@ # while it still has an owner (the reference count is raised by compare-and-swap from a NON-ZERO value)
+//@ func (*RecursionWorkLedger).Debit
+//@   abstract
+//@   nosafety all pre
+//@   assert at call (*middleware.RecursionWorkLedger).debit#1: arg0 == l && arg1 == kind && arg2
+//@   assert at return: result == lastret("(*middleware.RecursionWorkLedger).debit")
+//@ func (*RecursionWorkLedger).DebitBestEffort
+//@   abstract
+//@   nosafety all pre
+//@   assert at call (*middleware.RecursionWorkLedger).debit#1: arg0 == l && arg1 == kind && !arg2
+//@   assert at return: result == lastret("(*middleware.RecursionWorkLedger).debit")
+//@ func (*RecursionWorkLedger).reject
+//@   nosafety ovf
+//@   assert at return: l != nil && old(l.policy.Mode) == RecursionWorkShadow && old(l.rootState.v) <= 1 ==> result == nil
+//@   assert at return#4: result != nil && old(l.policy.Mode) == RecursionWorkEnforce
+//@   assert at call (*middleware.RecursionWorkLedger).markExhausted#1: arg3 == (l.policy.Mode == RecursionWorkEnforce && latchRejection)
+//@ func (*RecursionWorkLedger).Retain
+//@   abstract
+//@   nosafety all pre
+//@   assert at call (*sync/atomic.Int64).CompareAndSwap#1: arg1 != 0 && (arg1 < 9223372036854775807 ==> arg2 == arg1 + 1) && arg1 == lastret("(*sync/atomic.Int64).Load")
+//@   assert at return#2: !result1
+//@   assert at return#1: !result1
+//@   assert at return#3: result1 && result0 != nil && lastret("(*sync/atomic.Int64).CompareAndSwap")
+//@ func (*RecursionWorkLedger).EnforcementError
+//@   abstract
+//@   nosafety all pre
+//@   assert at return#6: result != nil && old(l.policy.Mode) == RecursionWorkEnforce && lastret("(*sync/atomic.Uint32).Load") != 0
+//@   assert at return#2: result == nil
+//@   assert at return#3: result == nil && lastret("(*sync/atomic.Uint32).Load") == 0
+//@
+//@ # nested internal queries: refused at depth 32, and every admitted one debits the tree's internal-query budget
+//@ # before the sub-pipeline runs
+//@ func (*pipelineQueryer).Query
+//@   abstract
+//@   nosafety all pre
+//@   assert at call middleware.DebitRecursionWork#1: depth < 32 && arg1 == RecursionWorkInternalQuery
+//@   assert at call (*middleware.Chain).Next#1: depth < 32 && lastret("middleware.DebitRecursionWork") == nil && calls("middleware.DebitRecursionWork") == 1
+//@   assert at return#1: result0 == nil && result1 != nil && depth >= 32 && calls("middleware.DebitRecursionWork") == 0
+//@   assert at return#2: result0 == nil && result1 != nil
